@@ -23,6 +23,20 @@ def literal_safe(p: bytes) -> bool:
     return printable(p) and not (set(p) & LITERAL_BAD)
 
 
+def one_quote_kind(p: bytes) -> bool:
+    """Printable, no backslash / back-tick, and at most ONE of the two quote characters (the literal is then written with
+    the other one, which the documented string syntax allows)."""
+    return printable(p) and not (set(p) & set(b"\\`")) and not (b"'" in p and b'"' in p)
+
+
+def quote_for(r, p: bytes) -> bytes:
+    if b'"' in p:
+        return b"'"
+    if b"'" in p:
+        return b'"'
+    return r.choice([b'"', b"'"])
+
+
 def not_operator(p: bytes) -> bool:
     return re.fullmatch(rb"[\s_]*(?:&|\+|&amp;)[\s_]*", p) is None
 
@@ -206,10 +220,10 @@ class Reverse(Enc):
     name, type, label = "reverse", "string", "reverse"
 
     def dom(self, p):
-        return len(p) >= 1 and literal_safe(p)
+        return len(p) >= 1 and one_quote_kind(p)
 
     def enc(self, p, r):
-        q = r.choice([b'"', b"'"])
+        q = quote_for(r, p)
         return r.choice([b"reverse(", b"reversed(", b"Reverse(", b"REVERSED( "]) + q + p[::-1] + q + b")"
 
 
@@ -217,7 +231,7 @@ class StrReverse(Reverse):
     name, type, label = "StrReverse", "vba.string", "vba.reverse"
 
     def enc(self, p, r):
-        q = r.choice([b'"', b"'"])
+        q = quote_for(r, p)
         return r.choice([b"StrReverse(", b"strreverse( ", b"STRREVERSE("]) + q + p[::-1] + q + r.choice([b")", b" )"])
 
 
@@ -243,13 +257,13 @@ class Replace(Enc):
     form = "js"
 
     def dom(self, p):
-        return len(p) >= 1 and literal_safe(p)
+        return len(p) >= 1 and one_quote_kind(p)
 
     def enc(self, p, r):
         x, m = _marked(p, r)
         if x is None:
             return None
-        q1, q2, q3 = (r.choice([b'"', b"'"]) for _ in range(3))
+        q1, q2, q3 = quote_for(r, p), r.choice([b'"', b"'"]), r.choice([b'"', b"'"])
         if self.form == "js":
             return q1 + x + q1 + b".replace(" + q2 + m + q2 + r.choice([b",", b", "]) + q3 + q3 + b")"
         if self.form == "vba":
@@ -314,7 +328,8 @@ class PsBytes(Enc):
     def enc(self, p, r):
         hexy = r.random() < 0.4
         sep = r.choice([b",", b", "])
-        return sep.join((b"0x%02x" % c) if hexy else (b"%d" % c) for c in p)
+        pre = r.choice([b"0x", b"0x", b"0X"])
+        return sep.join((pre + b"%02x" % c) if hexy else (b"%d" % c) for c in p)
 
 
 ENCODERS = [B64Bare(), Atob(), B64Decode(), FromB64(), HexLower(), HexUpper(), FromHex(), Utf16(), XmlDec(), XmlHex(),
